@@ -236,7 +236,7 @@ def h7_any_guarded_update(ctx, tk, rule, funcs):
                              "the others are shifted too" % (cond, name, val), node=n.ast, engine="KB")
 
 
-GEOM_ATTRS = {"starts", "ends", "lengths", "_codes", "_dtype", "n_rows"}
+GEOM_ATTRS = {"starts", "ends", "lengths", "_codes", "_dtype", "n_rows", "_step", "col_step"}
 
 
 def index_typed(t, d=0):
@@ -404,6 +404,13 @@ def h11_isinstance_int(ctx, tk, rule, funcs):
             cls = c.a[1][1]
             names = {x.a[0] for x in walk(cls) if x.k == "global"} | {(attr_chain(x) or ("",))[-1] for x in walk(cls) if x.k == "attr"}
             if "int" in names and not (names & {"Number", "Integral", "integer", "Real", "generic"}):
+                # `isinstance(x, int) and x == 1: <shortcut>` only selects a fast path: whatever fails the test takes the general path
+                guard_only = False
+                if n.kind == "test" and isinstance(n.ast, ast.BoolOp) and isinstance(n.ast.op, ast.And):
+                    pn = {a.a[0] for a in alts(c.a[1][0]) if a.k == "param"}
+                    guard_only = any(isinstance(v, ast.Compare) and any(isinstance(y, ast.Name) and y.id in pn for y in ast.walk(v)) for v in n.ast.values)
+                if guard_only:
+                    continue
                 ctx.violated(rule, f, "scalar index kinds are recognised for numpy integer scalars as well as Python ints",
                              "`%s`: np.int64(3) is not an `int`, so positions taken from an array (for i in np.arange(n): a[i]) fall through the dispatch" % (c,),
                              node=c.node, engine="KB")
@@ -1434,13 +1441,25 @@ def h42_view_ends_as_range_stop(ctx, tk, rule, funcs):
                        "`%s`: for a negative column step `ends` (last visited cell + 1) lies above the start and the range is empty or too short" % (c,), node=c.node, engine="KB")
 
 
+def _dispatcher_bodies(f):
+    """the AST of a ufunc dispatcher together with the methods of its class it calls on self (depth 1)"""
+    bodies = [f.node]
+    if f.cls is not None and f.params:
+        for x in ast.walk(f.node):
+            if isinstance(x, ast.Call) and isinstance(x.func, ast.Attribute) and isinstance(x.func.value, ast.Name) and x.func.value.id == f.params[0]:
+                h = f.cls.lookup(x.func.attr)
+                if h is not None and h.node not in bodies and h.name.startswith("_") and not h.name.startswith("__"):
+                    bodies.append(h.node)
+    return bodies
+
+
 def h43_typed_operand_made_weak(ctx, tk, rule, funcs):
     """x.item() / x.tolist() turn a typed 0-d array or numpy scalar into a Python scalar, which numpy (NEP 50) treats as weakly
     typed: int8_array + np.int16(3).item() stays int8 where numpy's own result is int16.  Operands of a ufunc keep their type"""
     for f in funcs:
         if f.name not in ("__array_ufunc__", "__array_function__") and not f.name.startswith("_apply"):
             continue
-        for x in ast.walk(f.node):
+        for x in (y for b in (_dispatcher_bodies(f) if f.name == "__array_ufunc__" else [f.node]) for y in ast.walk(b)):
             if isinstance(x, ast.Call) and isinstance(x.func, ast.Attribute) and x.func.attr in ("item", "tolist") and not x.args:
                 ctx.violated(rule, f, "ufunc operands keep their element type",
                              "`%s` hands the operand on as a Python scalar: it no longer takes part in numpy's type promotion" % ast.unparse(x), node=x, engine="KB")
@@ -1453,7 +1472,7 @@ def h44_operand_forced_into_own_dtype(ctx, tk, rule, funcs):
         if f.name != "__array_ufunc__" or not f.params:
             continue
         selfn = f.params[0]
-        for x in ast.walk(f.node):
+        for x in (y for b in _dispatcher_bodies(f) for y in ast.walk(b)):
             if isinstance(x, ast.Call) and isinstance(x.func, ast.Attribute) and x.func.attr in ("asanyarray", "asarray", "array", "astype"):
                 for kw in x.keywords:
                     v = kw.value
@@ -1686,6 +1705,38 @@ def h54_binary_search_in_caller_data(ctx, tk, rule, funcs):
                                  c, hay, ", ".join(sorted(set(from_param)))), node=c.node, engine="KB")
 
 
+def h55_scalar_test_misses_numpy_bool(ctx, tk, rule, funcs):
+    """np.bool_ (and every other np.generic that is not numeric) is not a numbers.Number: a ufunc dispatcher that recognises scalar
+    operands by `isinstance(x, Number)` alone refuses `array & np.bool_(True)` although numpy treats it as a scalar"""
+    for f in funcs:
+        if f.name != "__array_ufunc__":
+            continue
+        tests = []
+        # the dispatcher together with the private helpers of its class it calls (the operand chain may live in a helper)
+        bodies = [f.node]
+        if f.cls is not None and f.params:
+            for x in ast.walk(f.node):
+                if isinstance(x, ast.Call) and isinstance(x.func, ast.Attribute) and isinstance(x.func.value, ast.Name) and x.func.value.id == f.params[0]:
+                    h = f.cls.lookup(x.func.attr)
+                    if h is not None and h.node not in bodies:
+                        bodies.append(h.node)
+        for x in (y for b in bodies for y in ast.walk(b)):
+            if isinstance(x, ast.Call) and isinstance(x.func, ast.Name) and x.func.id == "isinstance" and len(x.args) == 2:
+                t = x.args[1]
+                names = [ast.unparse(e) for e in (t.elts if isinstance(t, ast.Tuple) else [t])]
+                if any(n.split(".")[-1] == "Number" for n in names):
+                    tests.append((x, names))
+        if not tests:
+            continue
+        # one scalar test that lets numpy scalars through is enough: np.generic / np.bool_ in the tuple, or np.isscalar / np.ndim(x) == 0 somewhere
+        other = any((isinstance(x, ast.Attribute) and x.attr in ("isscalar", "generic", "bool_")) or
+                    (isinstance(x, ast.Call) and isinstance(x.func, ast.Attribute) and x.func.attr == "ndim") for b in bodies for x in ast.walk(b))
+        covered = [names for _, names in tests if any(n.split(".")[-1] in ("generic", "bool_", "bool") for n in names)]
+        ctx.decide(rule, f, "numpy's own scalars (np.bool_ included) are accepted as scalar operands", True if covered else (None if other else False),
+                   "`%s` is the scalar test: np.bool_ is not a numbers.Number, so `array & np.bool_(True)` is refused (NotImplemented -> TypeError)" % ast.unparse(tests[0][0]),
+                   node=tests[0][0], key="numpy-bool-scalar", engine="KB")
+
+
 def generic(ctx, tk, rule, funcs, skip=()):
     """all deviance-form hazard rules over a property's function scope"""
     fs = [f for f in funcs if f.qual not in skip]
@@ -1738,6 +1789,7 @@ def generic(ctx, tk, rule, funcs, skip=()):
     h52_mask_of_unusual_width(ctx, tk, rule + "/H52", fs)
     h53_narrowed_before_clamped(ctx, tk, rule + "/H53", fs)
     h54_binary_search_in_caller_data(ctx, tk, rule + "/H54", fs)
+    h55_scalar_test_misses_numpy_bool(ctx, tk, rule + "/H55", fs)
     from . import wellformed as _W
     _W.report_constant_truth(ctx, tk, rule, fs)
     # H19 (raw ufunc identity stored) depends on which ufunc the caller chose: it is applied by C05 only, where the
